@@ -881,7 +881,12 @@ func (env *Env) evalCall(e *SCall) (Val, error) {
 			}
 			return Val{T: fr.strOfBytes(env.st, x.T), Typ: types.Typ[types.String]}, nil
 		case "int":
-			return env.eval(e.Args[0])
+			v, err := env.eval(e.Args[0])
+			if err != nil {
+				return Val{}, err
+			}
+			v.Typ = types.Typ[types.Int]
+			return v, nil
 		case "inst", "tloc":
 			x, err := env.eval(e.Args[0])
 			if err != nil {
